@@ -144,12 +144,14 @@ CLAIMED = {
        "equal the per-sample map for EVERY length (induction over the refills); for any block length B, any per-block codec with dec(enc b) = b and "
        "any history of write calls the closed file decodes to the samples written followed by fewer than B zero samples (first N bit exact, "
        "N <= F < N + B); the DPCM codecs of xi.c concretely (Dpcm.v, kernels as coded with their 16/8-bit wrap): any shorts, any partition into write calls, "
-       "any partition of the stored codes into read calls come back bit exact (16-bit), ints keep their top 16 / 8 bits. Tie: K on the eight DPCM kernels and "
+       "any partition of the stored codes into read calls come back bit exact (16-bit), ints keep their top 16 / 8 bits; the 7-bit sample packing of sds.c concretely (Sds.v: unsigned offset, shifts, OR-ing as coded): an int comes back "
+       "with exactly its top 14 / 21 / 28 bits, lossless for the low-bit-zero ints of each subtype. Tie: K on SDS files through the API (packed bytes of every sample, "
+       "arbitrary bytes through the reader); K on the eight DPCM kernels and "
        "on XI files written / read through the API in random partitions beyond the staging buffer; C02's exhaustive conversion correspondence; the stored codes and frame count of every sample-granular file of the run "
        "are predicted by the model; write / close / re-open / read oracle over every lossless container x encoding x endian x caller type, channels 1 "
        "and max, N around every block boundary and 4097, full-range noise with only the unrepresentable low bits cleared, arbitrary finite float / "
        "double bit patterns.",
-  note="Trusted: Coq kernel, PcmConv.v / Endian.v / Stream.v, extraction, sfdrive. The concrete block codecs (ALAC, DWVW, SDS and PAF24 packers) are "
+  note="Trusted: Coq kernel, PcmConv.v / Endian.v / Stream.v, extraction, sfdrive. The concrete block codecs (ALAC, DWVW, the PAF24 packer, the SDS block framing) are "
        "abstract in the theorem and decided by the oracle. Known findings: PAF24 and SDS final block, ALAC_20/24 noise, ALAC_32, tiny SD2 files, trailing "
        "zero frames of header-less DWVW.",
   technique="Coq proof (per-sample round trips, staging-loop induction, generic block-stream theorem) + model prediction of stored codes + round-trip oracle",
